@@ -764,62 +764,16 @@ fn disarm_abort_guard(case: &Case) {
 // interpreter owns one long-lived helper thread; a history's plan says which calls are made there.
 // ---------------------------------------------------------------------------------------------
 
-struct JobPtr(*mut (dyn FnMut() + 'static));
-unsafe impl Send for JobPtr {}
-
-struct Helper {
-    tx: std::sync::mpsc::Sender<JobPtr>,
-    done: std::sync::mpsc::Receiver<()>,
-}
-
-thread_local! {
-    static HELPER: std::cell::RefCell<Option<Helper>> = const { std::cell::RefCell::new(None) };
-}
-
-/// run `f` on this interpreter's helper thread and wait for it (strictly one call at a time: the
-/// hand-over through the channels orders everything before the call before it, and everything in
-/// it before the return)
+/// run `f` on this interpreter's long-lived helper thread (engine::on_helper) with the abort guard's
+/// in-flight record visible there
 fn on_helper<R>(f: impl FnOnce() -> R) -> R {
     let inflight = INFLIGHT.with(|c| c.get());
-    let mut slot: Option<std::thread::Result<R>> = None;
-    let mut fopt = Some(f);
-    {
-        let mut job = || {
-            INFLIGHT.with(|c| c.set(inflight));
-            let f = fopt.take().unwrap();
-            slot = Some(std::panic::catch_unwind(std::panic::AssertUnwindSafe(f)));
-            INFLIGHT.with(|c| c.set((std::ptr::null(), 0)));
-        };
-        let r: &mut dyn FnMut() = &mut job;
-        // the borrow is erased for the channel; this function does not return before the job ran
-        let raw: *mut (dyn FnMut() + 'static) = unsafe { std::mem::transmute(r as *mut dyn FnMut()) };
-        HELPER.with(|h| {
-            let mut h = h.borrow_mut();
-            if h.is_none() {
-                let (tx, rx) = std::sync::mpsc::channel::<JobPtr>();
-                let (dtx, drx) = std::sync::mpsc::channel::<()>();
-                std::thread::Builder::new()
-                    .name("c11-helper".into())
-                    .spawn(move || {
-                        while let Ok(j) = rx.recv() {
-                            unsafe { (*j.0)() };
-                            if dtx.send(()).is_err() {
-                                break;
-                            }
-                        }
-                    })
-                    .expect("helper thread");
-                *h = Some(Helper { tx, done: drx });
-            }
-            let hh = h.as_ref().unwrap();
-            hh.tx.send(JobPtr(raw)).expect("helper thread gone");
-            hh.done.recv().expect("helper thread gone");
-        });
-    }
-    match slot.expect("helper did not run the job") {
-        Ok(r) => r,
-        Err(p) => std::panic::resume_unwind(p),
-    }
+    crate::engine::on_helper(|| {
+        INFLIGHT.with(|c| c.set(inflight));
+        let r = f();
+        INFLIGHT.with(|c| c.set((std::ptr::null(), 0)));
+        r
+    })
 }
 
 /// which thread makes the FFI call of a step / reads the state through the FFI around it
